@@ -54,10 +54,32 @@ def build_graph(gi, spec):
                 execution_strategy=strategies[0] if runtimes else None)
         t._verif_id = i
         tasks[i] = t
+    late = [tuple(e) for e in spec.get("late", [])]
     mapping = {}
     for n, cs in spec["adj"]:
+        cs = list(cs)
+        for (p, c) in late:
+            if p == n:
+                # (eligible late edges are the LAST children of their parent, removed from the end)
+                assert cs and cs[-1] == c or c in cs
+                cs.reverse()
+                cs.remove(c)
+                cs.reverse()
         mapping[tasks[n]] = [tasks[c] for c in cs]
     tg = TaskGraph(name="G%d" % gi, tasks=mapping)
+    if late:
+        # the graph is used once (what any scheduler invocation, cancel or remaining-time query does), THEN the remaining
+        # dependencies are declared with Graph.add_child directly
+        try:
+            tg.topological_sort()
+        except Exception:
+            pass
+        try:
+            tg.get_remaining_time()
+        except Exception:
+            pass
+        for (p, c) in late:
+            tg.add_child(tasks[p], tasks[c])
     return tg, tasks, den
 
 
